@@ -775,16 +775,19 @@ def run_case(ctx: Ctx, spec, sc, lines_out=None, only_cfg=None):
 
 
 
-def run_variant_case(ctx: Ctx, spec, scs, plan, only_cfg=None):
-    """several variants with different input data, simulated together, with a simulation plan (swap points) or without:
-    every variant is judged against ITS OWN inputs"""
+def run_variant_case(ctx: Ctx, spec, scs, plan, only_cfg=None, model_nv=None):
+    """several data variants with different input data, simulated together, with a simulation plan (swap points) or without:
+    every variant is judged against ITS OWN inputs. `model_nv` = number of parameter variants of the model object (default: as many
+    as data variants); with fewer, `simulate(..., num_variants=len(scs))` has to reuse the last model variant for the remaining data"""
     m1 = build_model(spec)
     if m1 is None:
         ctx.count("gen:model-rejected")
         return 0
     nv = len(scs)
-    m = build_model_variants(spec, nv)
-    db, span = build_db_multi(spec, m, m1, scs)
+    m_data = build_model_variants(spec, nv)
+    db, span = build_db_multi(spec, m_data, m1, scs)
+    model_nv = nv if model_nv is None else int(model_nv)
+    m = m_data if model_nv == nv else (m1 if model_nv == 1 else build_model_variants(spec, model_nv))
     judged = 0
     cfgs = [dict(method="stacked_time", terminal="first_order", initial_guess=ig, solver="func-only") for ig in ("first_order", "data")]
     if m1.max_lead == 0:
@@ -797,7 +800,7 @@ def run_variant_case(ctx: Ctx, spec, scs, plan, only_cfg=None):
     if spec["linear"] and not plan:
         try:
             with quiet():
-                fo_out = m.simulate(db, span, method="first_order", when_fails="silent")
+                fo_out = m.simulate(db, span, method="first_order", when_fails="silent", num_variants=nv)
         except Exception as e:
             ctx.count(f"variants:first-order-raised:{type(e).__name__}")
     for cfg in cfgs:
@@ -807,12 +810,20 @@ def run_variant_case(ctx: Ctx, spec, scs, plan, only_cfg=None):
         try:
             with quiet():
                 out, info = m.simulate(db, span, method=cfg["method"], plan=make_plan(m, span, plan) if plan else None,
-                                       return_info=True, remove_terminal=False, when_fails="silent", unpack_singleton=False, **kw)
+                                       return_info=True, remove_terminal=False, when_fails="silent", unpack_singleton=False,
+                                       num_variants=nv, **kw)
         except Exception as e:
             ctx.count(f"variants:{cfg['method']}:raised:{type(e).__name__}")
             continue
         terminal = cfg.get("terminal", "data")
-        case = {"spec": spec, "scenarios": scs, "plan": plan, "config": cfg}
+        case = {"spec": spec, "scenarios": scs, "plan": plan, "config": cfg, "model_variants": model_nv}
+        ctx.count(f"variants:model-variants-{model_nv}-of-{nv}")
+        if len(info) != nv:
+            # every requested data variant is a returned path the property speaks about: one that was never simulated is reported here
+            # (its output columns are the untouched input, which the residual oracle would reject as well)
+            ctx.fail("data-variant-not-simulated", case, f"{cfg['method']}: simulate(..., num_variants={nv}) on a model with {model_nv} parameter variant(s) "
+                     f"returned info for {len(info)} variant(s) only: data variants {list(range(len(info), nv))} were never simulated")
+            continue
         for v in range(nv):
             if not all(st.is_success for st in info[v]["exit_status"]):
                 ctx.count(f"not-success:variants:{cfg['method']}")
